@@ -10,6 +10,7 @@ import (
 	"os"
 	"path/filepath"
 	"sync"
+	"sync/atomic"
 	"time"
 
 	"go.uber.org/zap"
@@ -38,7 +39,7 @@ type WALFileType struct {
 	ReplicationSender ReplicationSender // send messages to replica servers
 	WALBypass         bool              // TODO: refactor: unexport this param
 	BackgroundSync    bool              // TODO: refactor: unexport this param
-	shutdownPending   *bool
+	shutdownPending   *uint32 // accessed atomically: set by Shutdown, polled by SyncWAL
 	walWaitGroup      *sync.WaitGroup
 	tpd               *TriggerPluginDispatcher
 	txnPipe           *TransactionPipe
@@ -67,7 +68,7 @@ func NewWALFile(rootDir string, owningInstanceID int64, rs ReplicationSender,
 	walBypass bool, walWaitGroup *sync.WaitGroup, tpd *TriggerPluginDispatcher,
 	txnPipe *TransactionPipe,
 ) (wf *WALFileType, err error) {
-	shutdownPending := false
+	var shutdownPending uint32
 	wf = &WALFileType{
 		lastCommittedTGID: 0,
 		OwningInstanceID:  owningInstanceID,
@@ -709,7 +710,9 @@ func sanityCheckValue(fp *os.File, value int64) (isSane bool) {
 	return value < sanityLen
 }
 
-var haveWALWriter = false
+// haveWALWriter is accessed atomically: it is set by the SyncWAL goroutine and
+// read by every writer in RequestFlush.
+var haveWALWriter uint32
 
 func (wf *WALFileType) SyncWAL(walRefresh, primaryRefresh time.Duration, walRotateInterval int) {
 	/*
@@ -719,7 +722,7 @@ func (wf *WALFileType) SyncWAL(walRefresh, primaryRefresh time.Duration, walRota
 		numTickerCheckPerWALRefresh = 100
 		writeChannelCapThreshold    = 0.8
 	)
-	haveWALWriter = true
+	atomic.StoreUint32(&haveWALWriter, 1)
 	tickerWAL := time.NewTicker(walRefresh)
 	tickerPrimary := time.NewTicker(primaryRefresh)
 	tickerCheck := time.NewTicker(walRefresh / numTickerCheckPerWALRefresh)
@@ -727,7 +730,7 @@ func (wf *WALFileType) SyncWAL(walRefresh, primaryRefresh time.Duration, walRota
 
 	chanCap := cap(wf.txnPipe.writeChannel)
 	for {
-		if !*wf.shutdownPending {
+		if atomic.LoadUint32(wf.shutdownPending) == 0 {
 			select {
 			case <-tickerWAL.C:
 				if err := wf.FlushToWAL(); err != nil {
@@ -765,7 +768,7 @@ func (wf *WALFileType) SyncWAL(walRefresh, primaryRefresh time.Duration, walRota
 				}
 			}
 		} else {
-			haveWALWriter = false
+			atomic.StoreUint32(&haveWALWriter, 0)
 			log.Info("Flushing to WAL...")
 			err := wf.FlushToWAL()
 			if err != nil {
@@ -788,7 +791,7 @@ func (wf *WALFileType) SyncWAL(walRefresh, primaryRefresh time.Duration, walRota
 // returns if there is already one queued which will handle the data
 // present in the write channel, as it will flush as soon as possible.
 func (wf *WALFileType) RequestFlush() {
-	if !haveWALWriter {
+	if atomic.LoadUint32(&haveWALWriter) == 0 {
 		if err := wf.FlushToWAL(); err != nil {
 			log.Error("failed to flush WAL", zap.Error(err))
 		}
@@ -804,7 +807,7 @@ func (wf *WALFileType) RequestFlush() {
 }
 
 func (wf *WALFileType) Shutdown() {
-	*wf.shutdownPending = true
+	atomic.StoreUint32(wf.shutdownPending, 1)
 	wf.walWaitGroup.Wait()
 	wf.finishAndWait()
 }
